@@ -135,6 +135,13 @@ Proof.
 Qed.
 Print Assumptions C19_runave_periodic_images.
 
+(* quaternion variables: the deviations are measured by cvm::quaternion::dist2, for which q and -q are the same
+   rotation (unit quaternions: inner product in [-1, 1]) *)
+Theorem C19_runave_quaternion_metric : forall a b : list R, (-1 <= vdot Rops a b <= 1)%R ->
+  lv_dist2 Rops KQuat (map Ropp a) b = lv_dist2 Rops KQuat a b.
+Proof. exact quat_dist2_antipodal. Qed.
+Print Assumptions C19_runave_quaternion_metric.
+
 (* ---- time-correlation function -------------------------------------------------------------------- *)
 (* For all sequences xi, xj of values (component lists) of this variable and of the variable named by
    corrFuncWithColvar (xi = xj for the autocorrelation), all lengths, strides >= 1, offsets, the three
@@ -188,6 +195,41 @@ Theorem C19_state_file_steps : forall (c : ocfg) (s0 : Z) (n : nat),
   filter (at_freq c (oc_restart_freq c)) (run_steps s0 (S n)) ++ [last].
 Proof. exact state_file_steps. Qed.
 Print Assumptions C19_state_file_steps.
+
+(* a new job whose first step it0 is given by a state file or the engine: lines at the ABSOLUTE multiples of the
+   frequency wherever it0 lies with respect to the grid; it0 itself gets a line only if it is a multiple *)
+Theorem C19_restarted_segment_on_absolute_grid : forall freq c it0 n, (0 < freq)%Z ->
+  let steps := data_steps (snd (traj_run (traj_init freq c) (TRestart it0 :: run_events it0 n))) in
+  NoDup steps /\
+  (forall it, In it steps <-> ((it0 <= it < it0 + Z.of_nat n)%Z /\ (it mod freq = 0)%Z)) /\
+  (In it0 steps <-> ((1 <= n)%nat /\ (it0 mod freq = 0)%Z)).
+Proof. exact restarted_segment_on_absolute_grid. Qed.
+Print Assumptions C19_restarted_segment_on_absolute_grid.
+
+(* the writers put a blank before every field and setw() pads but never cuts: splitting a line on blanks gives back
+   the fields whatever their lengths - numbers wider than the 21-character column do not run into their neighbours *)
+Theorem C19_fields_never_merge : forall w toks,
+  Forall (fun t => no_blank t /\ t <> []) toks -> split_blanks [] (write_fields w toks) = toks.
+Proof. exact fields_never_merge. Qed.
+Print Assumptions C19_fields_never_merge.
+
+(* ABF history files: over write steps without repetition, one block exactly for the multiples of historyFreq;
+   a write repeated for the same step adds no block *)
+Theorem C19_abf_history_blocks : forall hf w,
+  NoDup w -> abf_hist hf None w = filter (fun it => (0 <? hf)%Z && (it mod hf =? 0)%Z) w.
+Proof. intros hf w H. apply abf_hist_nodup; [exact H|exact I]. Qed.
+Print Assumptions C19_abf_history_blocks.
+Theorem C19_abf_history_not_twice : forall hf it r, abf_hist hf (Some it) (it :: r) = abf_hist hf (Some it) r.
+Proof. exact abf_hist_repeated. Qed.
+Print Assumptions C19_abf_history_not_twice.
+
+(* a buffered record file (hills trajectory): whatever the interleaving of records and writes, after a write the file
+   holds every record made so far, in order; with C19_output_files_final_and_once (a write at the last step of the run)
+   the file left by a run is the whole list of records - the list that C05_hills_trajectory characterises *)
+Theorem C19_buffered_file_complete : forall R (evs : list (fevent R)),
+  fst (flush_run [] [] (evs ++ [FFlush])) = records_of evs.
+Proof. exact flush_run_complete. Qed.
+Print Assumptions C19_buffered_file_complete.
 
 (* ---- label text ------------------------------------------------------------------------------------ *)
 (* FULL STATEMENT (false of the code): the token a reader sees for a column is prefix ++ name, so that different
